@@ -114,11 +114,21 @@ class Real:
 
     def layout(self, lines, k, method, extra):
         """positions computed by the real placer + the TikZ text (cct.draw to a .schtex file: no LaTeX involved)"""
+        import signal
         out = io.StringIO()
         path = os.path.join(self.tmp, 'o.schtex')
-        with contextlib.redirect_stdout(out):
-            sch = self.sch(lines)
-            sch.draw(path, method=method, node_spacing=float(k), **extra)
+
+        def on_alarm(signum, frame):
+            raise TimeoutError('placer did not finish within 10 s')
+        old = signal.signal(signal.SIGALRM, on_alarm)
+        signal.alarm(10)
+        try:
+            with contextlib.redirect_stdout(out):
+                sch = self.sch(lines)
+                sch.draw(path, method=method, node_spacing=float(k), **extra)
+        finally:
+            signal.alarm(0)
+            signal.signal(signal.SIGALRM, old)
         pos = {}
         for name, node in sch.nodes.items():
             pos[name] = (snap(node.pos.x), snap(node.pos.y))
@@ -402,6 +412,7 @@ CORPUS = [
     ('left-offset', 2, ['W 9 2; left=3', 'W 9 10; down', 'W 10 3; left=1', 'W 2 3; down', 'R1 9 2; left', 'C1 9 2; left, offset=0.5']),
     ('parallel-offset', 2, ['R1 1 2; right', 'C1 1 2; right, offset=0.5', 'L1 1 2; right, offset=-0.5', 'W 2 3; down', 'W 1 4; down']),
     ('zero-length', 2, ['R1 1 2; right', 'W 2 3; right=0', 'R2 3 4; down', 'W 4 5; left=0', 'W 5 6; left=2']),
+    ('fixed-with-slack', 2, ['R1 1 2; right=1, fixed', 'W 2 5; right=0.5', 'W 1 3; down', 'R2 3 4; right=3', 'W 4 5; up']),
     ('fixed-loop', 3, ['R1 1 2; right=2, fixed', 'R2 2 3; down=1.5, fixed', 'W 1 4; down=1.5', 'R3 4 3; right=1']),
 ]
 
@@ -420,12 +431,15 @@ def features_of(lines):
                 break
         m = re.search(r'rotate=(-?\d+)', o)
         tot = base + (int(m.group(1)) if m else 0)
+        if l.split()[0][0] == 'P' and base == 0 and not re.search(r'\bright\b', o):
+            tot -= 90
         if tot not in TABLE_ANGLES:
             f['outside'] = True
-        if tot == 180 and 'offset' in o:
-            f['outside'] = True     # the generated wires get rotate=270
-        if tot == -90 and re.search(r'offset=-', o):
-            f['outside'] = False
+        mo = re.search(r'offset=(-?[\d.]+)', o)
+        if mo and float(mo.group(1)) != 0:
+            # Schematic._cpt_add gives the two generated wires rotate = angle +- 90
+            if tot + (90 if float(mo.group(1)) > 0 else -90) not in TABLE_ANGLES:
+                f['outside'] = True
         if l.split()[0][0] in 'UE' or l.startswith('TF'):
             f['multi_pin'] = True
     return f
@@ -466,6 +480,7 @@ def run(chk, replay=None):
                             'NetlistMaker / LadderMaker, hand corpus; non-trivial = a witness layout passes the Lean check (hints are '
                             'consistent) and Lcapy returned positions; distinct by netlist text, spacing, method')
     disagreements = []
+    masked_samples = []
     counterexamples = 0
     unjudged = 0
 
@@ -555,6 +570,8 @@ def run(chk, replay=None):
     def one_case(lines, k, truth, feats, origin, extra=None):
         nonlocal counterexamples, unjudged
         extra = extra or {}
+        feats = dict(feats)
+        feats['outside'] = bool(feats.get('outside')) or features_of(lines)['outside']
         chk.count('origin', origin)
         for key in ('fixed', 'free', 'offset', 'outside', 'cycle', 'multi_pin'):
             if feats.get(key):
@@ -607,6 +624,9 @@ def run(chk, replay=None):
                     unjudged += 1
                     continue
                 counterexamples += 1
+                if method == 'graph' and len(masked_samples) < 3:
+                    masked_samples.append({'netlist': lines, 'node_spacing': fstr(k), 'spec': verdict,
+                                           'lcapy': {n: '%s,%s' % (fstr(x), fstr(y)) for n, (x, y) in pos.items()}})
                 key2 = dict(key, failure=verdict.split(':')[0].replace('fail ', ''), violated=violated_kind(lines, k, verdict),
                             lcapy_reports_conflict=('conflict' in printed))
                 chk.counterexample(key2, dict(replay_base, lcapy={n: '%s,%s' % (fstr(x), fstr(y)) for n, (x, y) in pos.items()},
@@ -645,9 +665,9 @@ def run(chk, replay=None):
                 if 'netlist' not in c:
                     continue
                 one_case(c['netlist'], Fraction(c.get('node_spacing', '2')), None, features_of(c['netlist']), 'corpus:' + fn)
-    n_grid = 14 if quick else 150
-    n_multi = 8 if quick else 70
-    n_net = 8 if quick else 70
+    n_grid = 80 if quick else 1500
+    n_multi = 30 if quick else 400
+    n_net = 30 if quick else 300
     for i in range(n_grid):
         lines, truth, feats = gen_grid(rng, allow_outside=(i % 7 == 6), fixed_p=0.15 if i % 3 else 0.0,
                                        offset_p=0.25 if i % 5 == 4 else 0.0)
@@ -668,6 +688,16 @@ def run(chk, replay=None):
         one_case(lines, rng.choice(spacings), truth, feats, feats['template'])
     R.close()
     chk.coverage['unjudged_failures_without_witness'] = unjudged
+    # the known heuristic failures of the graph placer (F20b) are matched by a behavioural key (Lcapy reports the
+    # conflict itself); guard against a change that makes them much more frequent than on the recorded tree (2.2%)
+    dist = chk.coverage['distribution']
+    judged = sum(v for kk, v in dist.get('verdict-graph', {}).items() if not kk.startswith('unjudged'))
+    nfail = dist.get('verdict-graph', {}).get('fail', 0)
+    chk.coverage['graph_placer_failure_rate'] = {'failed': nfail, 'judged': judged, 'alarm_above': '8% (and more than 8 cases)'}
+    if judged >= 50 and nfail > 8 and nfail > 0.08 * judged and not chk.violations:
+        chk.unexplained('broken-correspondence', 'graph-placer-failure-rate',
+                        {'failed': nfail, 'judged': judged, 'failing_inputs': masked_samples, 'note': 'hint violations of the graph placer on consistent netlists are far more '
+                         'frequent than the recorded known finding F20b explains'})
     # ---- classification
     chk.coverage['correspondence']['samples_of_disagreement'] = disagreements[:5]
     if broken and counterexamples == 0 and not chk.known_seen:
